@@ -247,6 +247,39 @@ def facts(snap, F):
     F.try_add("publicMethods", "List String", lambda: lstr(rt()["public"]), "public names of psutil.Process (runtime dir())")
     F.try_add("asDictNames", "List String", lambda: lstr(rt()["asdict"]), "psutil._as_dict_attrnames")
 
+    def gone_guard():
+        fn = fm()["_raise_if_pid_reused"]
+        ifs = [n for n in fn.body if isinstance(n, ast.If)]
+        if not ifs or "_pid_reused" not in ast.unparse(ifs[0].test):
+            raise NotRecognised("_raise_if_pid_reused: first test is not the _pid_reused one")
+        for n in ifs[1:]:
+            if extract.dotted(n.test) == "self._gone":
+                r = [x for x in n.body if isinstance(x, ast.Raise) and isinstance(x.exc, ast.Call)]
+                if len(r) == 1 and extract.dotted(r[0].exc.func).split(".")[-1] == "NoSuchProcess" and not n.orelse:
+                    return True
+                raise NotRecognised("_raise_if_pid_reused: `if self._gone` does not raise NoSuchProcess")
+        if len(ifs) > 1:
+            raise NotRecognised("_raise_if_pid_reused: unrecognised second test %s" % ast.unparse(ifs[1].test))
+        return False
+    F.try_add("goneGuard", "Bool", lambda: extract.lean_bool(gone_guard()),
+              "_raise_if_pid_reused also raises NoSuchProcess(pid) when self._gone is set")
+
+    def pop_self():
+        fn = fm()["children"]
+        found = False
+        for n in fn.body:
+            if isinstance(n, ast.If):
+                break           # the recursive / non recursive branches start here
+            if isinstance(n, ast.Expr) and isinstance(n.value, ast.Call) and extract.dotted(n.value.func) == "ppid_map.pop":
+                a = n.value.args
+                if len(a) == 2 and extract.dotted(a[0]) == "self.pid" and isinstance(a[1], ast.Constant) and a[1].value is None:
+                    found = True
+                else:
+                    raise NotRecognised("children: ppid_map.pop(%s)" % ast.unparse(n.value))
+        return found
+    F.try_add("childrenPopSelf", "Bool", lambda: extract.lean_bool(pop_self()),
+              "children() drops the caller's own pid from the ppid map before looking for children")
+
 
 # ------------------------------------------------------------------------------ worlds
 
@@ -610,7 +643,7 @@ def plan_family(plan):
 
 # ------------------------------------------------------------------------------ comparison
 
-GONE_NSP_EXEMPT = {"pid", "create_time", "is_running", "children", "as_dict", "process_iter"}
+GONE_NSP_EXEMPT = {"pid", "create_time", "is_running", "as_dict", "process_iter"}
 
 
 def line_for(call, plan, impl):
